@@ -132,7 +132,7 @@ CLAIMED["C15"] = (
 # clauses added in later rounds (seeded changes, systematic mutants, defects D7-D10); appended to the `Decides` text
 ADDENDA = {
     "C01": "Later clauses: a cache hit records its observation; backward projection collects exactly projections; CalleeOrder updates are order-preserving and abort_callee removes exactly the callee; "
-           "the popped stripped-buffer edge is the one processed; firewall set and the observations of its members are replaced together with the callees' current fingerprints (D8). Round 5: only abort_callee / clear take entries out of the recorded order; C01.o is a lower bound (User, RepairFirewall); KNOWN FINDING K1 (C01.t: a callee read by an executor for the first time is verified against unrepaired firewalls) is reported as a KNOWN-FINDING line, see DESIGN 6b; K2 (C01.u: a pending backward projection honoured only at its own epoch) was repaired as D19 and the clause is armed.",
+           "the popped stripped-buffer edge is the one processed; firewall set and the observations of its members are replaced together with the callees' current fingerprints (D8). Round 5: only abort_callee / clear take entries out of the recorded order; C01.o is a lower bound (User, RepairFirewall); KNOWN FINDING K1 (C01.t: a callee read by an executor for the first time is verified against unrepaired firewalls) is reported as a KNOWN-FINDING line, see DESIGN 6b; K2 (C01.u: a pending backward projection honoured only at its own epoch) was repaired as D19 and the clause is armed. KNOWN FINDING K8 (C01.v: a changed firewall set below a projection is not propagated).",
     "C02": "Later clauses: upgrade_to_exclusive resets every memoised column after re-acquiring; the tier upgrade of a caller set re-inserts every drained member; the key-of-set loader / overlay / merging reader "
            "clauses of C09 (as C02.h), because caller sets are key-of-set entries. Round 5: epoch read under the phase lock (C04.a as C02.j); KNOWN FINDING K3 (C02.i: the undo token of register_callee belongs to the call, not to the registration).",
     "C03": "Later clause: no Recompute is reachable from a Cleaned / NoNeed answer of a callee check (only a changed value forces re-execution). Round 5: observations of every callee survive a clean verification (C01.s as C03.k). Since D19 the marker clauses read: both sites test the marker's presence only (C03.f), and every re-execute exit of should_recompute_query lies behind RepairDecision::Recompute, also for a backward projection (C03.d).",
@@ -141,7 +141,7 @@ ADDENDA = {
     "C06": "Later clauses: register_callee registers on every path; the probe marks the start false; the Result of a callee's repair is inspected before its stored info is read (D9). Round 5: edge-role / arm-symmetry clauses of set_computed (C01.c as C06.i). The repairing caller introduces itself under its own id (C06.l); no observation for a caller already on a cycle (C06.j, D15); KNOWN FINDING K5 (C06.k: the SCC mark of the repair phase reaches the executor).",
     "C07": "Later clauses: QueryKind::Input is written exactly for explicit inputs (set_input/update true, refresh false); batch coalescing / staging clauses of C09 (as C07.f). Round 5: the interned-handle decode clauses (C15.c, C15.a as C07.g). InputSession::commit runs inside its guarded block (C07.h).",
     "C09": "Later clauses: in-memory insert reaches the set on every path; every scanned member is inserted before the loader may spill; a message for the staging log is applied or deferred, never dropped; "
-           "every filtered source of the merging reader is re-polled after a rejected member (D10). Round 5: the committer's consume-before-notify clauses (C10.a as C09.j). An unpinned entry only is evicted (C16.a as C09.l); a store member is taken out of the staged additions before it is yielded (D16); KNOWN FINDINGS K4 (C09.k: cold load vs concurrent write of a key-of-set entry) and K7 (C09.m: late cache fill of the wide-column cache).",
+           "every filtered source of the merging reader is re-polled after a rejected member (D10). Round 5: the committer's consume-before-notify clauses (C10.a as C09.j). An unpinned entry only is evicted (C16.a as C09.l); a store member is taken out of the staged additions before it is yielded (D16); K4 (C09.k: cold load vs concurrent write of a key-of-set entry) and K7 (C09.m: late cache fill of the wide-column cache) were repaired as D20; both clauses are armed and tightened to the repaired protocol.",
     "C10": "Later clauses: a popped batch is consumed before it is listed for notification; the committer drains until nothing is ready; each backend commit is exactly one store write on every path (C08.d/e as C10.g). expected_epoch moves only by one, in process_pending_commits (C10.h).",
     "C11": "Later clauses: operations of one batch are applied in issue order; consume replays every recorded operation; the serializer's raw-read and varint-reader clauses (C12.l, C12.k as C11.h), since both backends decode every stored byte with them. The prefix extractor's domain has no upper bound (C11.i).",
     "C12": "Later clauses: both halves of as_slices are consumed; decoded BitVec cut to the bit length; the four varint readers are the same loop up to the width, return on the clear-0x80 edge, mask 0x7f, step 7 (C12.k); "
@@ -194,7 +194,7 @@ m = {
     "not_applicable": [{"property_id": i, "reason": NOT_YET} for i in ids if i not in CLAIMED],
     "notes": "Technique family: static analysis only (no execution of the engine). quick = all rules on the RocksDB-free build shape (plus the shapes a rule names itself); "
              "thorough = quick plus a second pass of every rule on the full workspace build (default features, integration-test crate). See DESIGN.md. "
-             "Fixed defects (D1-D19) and the known findings K1, K4, K5, K7 (recorded, not repaired; printed as KNOWN-FINDING lines, exit 0) are in known_findings.json and DESIGN.md sections 6 / 6b.",
+             "Fixed defects (D1-D20) and the known findings K1, K5, K8 (recorded, not repaired; printed as KNOWN-FINDING lines, exit 0) are in known_findings.json and DESIGN.md sections 6 / 6b.",
 }
 json.dump(m, open(os.path.join(HERE, "MANIFEST.json"), "w"), indent=1)
 print("claimed:", [c["property_id"] for c in checks])
